@@ -42,7 +42,7 @@ def shards(tier, seed):
 def floors(tier):
     return {"pairs:equivalent": 1500, "pairs:inequivalent": 1500, "constructive:gates_verified": 500,
             "constructive:sequence_verified": 500, "lc_check:calls": 200, "lcomp:calls": 400, "pairs:disconnected": 200,
-            "mode:random": 300, "set:solution_space_dim": 5, "state_converter_circuit:calls": 50, "lc_check:non_graph_form_tableaux": 150}
+            "mode:random": 300, "arguments:checked_unchanged": 2000, "history:same_arrays_asked_again": 300, "set:solution_space_dim": 5, "state_converter_circuit:calls": 50, "lc_check:non_graph_form_tableaux": 150}
 
 
 class BasisProbe:
@@ -171,6 +171,23 @@ def apply_gates(t, gate_list):
     return t
 
 
+def _unchanged(ctx, case, what, objs, snaps):
+    """query functions must leave their arguments as they were (the same arrays / graphs are asked about again)"""
+    for i, (o, b) in enumerate(zip(objs, snaps)):
+        ctx.count("arguments:checked_unchanged")
+        # compared as graphs (which off-diagonal entries are non-zero), not as bytes: a harmless normalisation is not a change
+        same = (o.shape == b.shape and np.array_equal((o != 0) & ~np.eye(len(b), dtype=bool), (b != 0) & ~np.eye(len(b), dtype=bool))) if isinstance(o, np.ndarray) else (set(map(frozenset, o.edges)) == b[0] and list(o.nodes) == b[1])
+        if not same:
+            ctx.violation("argument_modified_in_place", case, {"call": what, "argument_index": i, "dtype": str(getattr(o, "dtype", "graph"))},
+                          key=f"arg_modified:{what}")
+            return False
+    return True
+
+
+def _snap(o):
+    return o.copy() if isinstance(o, np.ndarray) else (set(map(frozenset, o.edges)), list(o.nodes))
+
+
 def check_pair(A, B, truth, ctx, probe, rng, level=1, modes=None):
     """level 0: decision only; 1: + constructive artefacts from matrices; 2: + lc_check / Graph / circuit interfaces"""
     import graphiq.backends.lc_equivalence_check as lc
@@ -187,9 +204,13 @@ def check_pair(A, B, truth, ctx, probe, rng, level=1, modes=None):
         if mode == "random":
             ctx.count("mode:random")
         probe.last = None
+        # the arrays handed over are integer or float (networkx hands out floats) and are reused for every later question
+        dt = [int, float][ctx.evaluations % 2]
+        Ax, Bx = A.astype(dt), B.astype(dt)
         try:
-            ans, sol = lc.is_lc_equivalent(A.copy(), B.copy(), mode=mode) if mode == "deterministic" else \
-                lc.is_lc_equivalent(A.copy(), B.copy(), mode=mode, seed=int(rng.integers(1000)))
+            ans, sol = lc.is_lc_equivalent(Ax, Bx, mode=mode) if mode == "deterministic" else \
+                lc.is_lc_equivalent(Ax, Bx, mode=mode, seed=int(rng.integers(1000)))
+            _unchanged(ctx, case, "is_lc_equivalent", [Ax, Bx], [A, B])
         except Exception as e:
             ctx.violation("is_lc_equivalent_raises", case, {"exception": f"{type(e).__name__}: {e}"[:300]}, key="lc_exc")
             continue
@@ -223,7 +244,14 @@ def check_pair(A, B, truth, ctx, probe, rng, level=1, modes=None):
             continue
         if mode == "deterministic":
             try:
-                seq = lc.find_lc_operations(A.copy(), B.copy())
+                seq = lc.find_lc_operations(Ax, Bx)
+                if _unchanged(ctx, case, "find_lc_operations", [Ax, Bx], [A, B]) or True:
+                    again, _ = lc.is_lc_equivalent(Ax, Bx, mode="deterministic")
+                    seq2 = lc.find_lc_operations(Ax, Bx)
+                    ctx.count("history:same_arrays_asked_again")
+                    if not again or [int(v) for v in seq2] != [int(v) for v in seq]:
+                        ctx.violation("answer_changes_when_the_same_arrays_are_asked_again", case, {"first_sequence": [int(v) for v in seq],
+                                      "second_answer": bool(again), "second_sequence": [int(v) for v in seq2]}, key="lc_history")
                 C = A.copy()
                 for v in seq:
                     C = graphs.local_complement(C, int(v))
@@ -235,7 +263,9 @@ def check_pair(A, B, truth, ctx, probe, rng, level=1, modes=None):
         from graphiq.backends.stabilizer.functions.local_cliff_equi_check import converter_gate_list, lc_check, state_converter_circuit
         gA, gB = gq.nx_from_adj(A), gq.nx_from_adj(B)
         try:
+            sA, sB = _snap(gA), _snap(gB)
             gl = converter_gate_list(gA, gB)
+            _unchanged(ctx, case, "converter_gate_list", [gA, gB], [sA, sB])
             ctx.count("constructive:gates_verified")
             if not apply_gates(group_of(A), gl).same_group(group_of(B)):
                 ctx.violation("converter_gate_list_wrong", case, {"gates": [list(map(str, g)) for g in gl]}, key="lc_gates_wrong")
